@@ -419,6 +419,8 @@ def run(ctx):
         from ..rules import arrayext
         na = arrayext.check_array_extents(ck, prog, config, 'C17-f', scope='lib', units=('dl/dl.c', 'dl/multipart.c', 'dl/range.c'))
         ck.min_instances('(call, fixed-size array) sites below the download callbacks', na, 2)
+        from ..rules import sizepair
+        sizepair.check_size_pairs(ck, prog, config, 'C17-g', min_exits=1, units=('dl/multipart.c', 'dl/dl.c'))
         # ---- d
         dlrules.arming_guard(ck, prog, config, 'C17-d')
         dlrules.confinement(ck, prog, config, 'C17-d')
